@@ -172,8 +172,6 @@ def judge_history(cset, limits, hist, feats=None):
                     p2, h2, u_installed, u_ret = twin[(k, a)]
                     prev_proved = model[(k, a)][2]
                     model[(k, a)] = [p2, h2, (p2 <= lim[k]) or prev_proved]
-                    if u_installed != u_ret:
-                        out.append(("C09|set_p_values|u-not-installed", f"{k}:{a}: test.u = {u_installed} but mvrs_to_data returned u = {u_ret}"))
                 cmax[k] = max(model[(k, a)][0] for a in names[k])
             want_ret = max(cmax[k] for k in names)
             if float(ret) != want_ret:
